@@ -67,12 +67,25 @@ pub open spec fn res_view(s: Seq<(Rc<String>, Option<JsonValue>)>) -> Seq<(Strin
 
 
 //@@ include lemmas/ctx_spec.rs
+// `v.iter().map(f).collect()` (rewrite results_map_collect): own function with the assumed std contract
+pub mod vmapc {
+use vstd::prelude::*;
+pub struct VCollected<U> { pub v: Vec<U> }
+impl<U> VCollected<U> { pub fn collect(self) -> (r: Vec<U>) ensures r == self.v { self.v } }
+pub open spec fn map_spec<T, U>(s: Seq<T>, c: spec_fn(T) -> U) -> Seq<U> { Seq::new(s.len(), |i: int| c(s[i])) }
+#[verifier::external_body]
+pub fn vmap_ref<T, U, F: FnMut(&T) -> U>(v: &Vec<T>, f: F) -> (r: VCollected<U>)
+    requires forall|x: &T| #[trigger] f.requires((x,)),
+    ensures r.v@.len() == v@.len(), forall|i: int| 0 <= i < v@.len() ==> f.ensures((&v@[i],), #[trigger] r.v@[i]),
+{ unimplemented!() }
+}
 
 impl Context {
     // ---- ghost view: everything an expression can observe
     pub closed spec fn inp(&self) -> JsonValue { *self.input }
     pub closed spec fn parents(&self) -> Seq<JsonValue> { deref_all(self.parent_inputs@) }
     pub closed spec fn res(&self) -> Seq<(String, Option<JsonValue>)> { res_view(self.results@) }
+    pub closed spec fn raw_res(&self) -> Seq<(Rc<String>, Option<JsonValue>)> { self.results@ }
     pub closed spec fn vars(&self) -> Map<String, JsonValue> { self.variables@ }
     pub closed spec fn defs(&self) -> Map<String, Rc<dyn Get>> { self.definitions@ }
     pub closed spec fn ictx(&self) -> Option<Rc<InputContext>> { self.input_context }
@@ -219,9 +232,18 @@ impl Context {
 //@@ endfn
 
 //@@ fn ctx.to_list = src/processor.rs :: impl Context :: fn to_list
+//@@ safety C10 C15
 //@@ ret r
-//@@ assume
+//@@ rewrite results_map_collect
 //@@ header-from specs/ctx/to_list.spec
+//@@ body-start
+        broadcast use cl::group_clone_is_copy;
+//@@ insert-after ".map(|i"
+ : &(Rc<String>, Option<JsonValue>)
+//@@ insert-after ".map(|i|"
+ -> (o: Option<JsonValue>) ensures o == i.1, {
+//@@ insert-after "i.1.clone()"
+ }
 //@@ endfn
 
 //@@ fn ctx.key = src/processor.rs :: impl Context :: fn key
